@@ -1,5 +1,7 @@
-(** parser.Frugal.UnderlyingType (compiler/parser/types.go:820) with its scope quirk, over a
-    multi-file program.  Names are per file here (unlike Model/ThriftBin.v, where the driver
+(** parser.Frugal.UnderlyingType of the PINNED tree (compiler/parser/types.go:820 before "fix:
+    UnderlyingType follows a typedef found in an include in that include's scope and qualifies the
+    result") with its scope quirk, over a multi-file program; the function as it is now is
+    [underlying_go_fixed] of Model/DfxGoGenPlan.v.  Names are per file here (unlike Model/ThriftBin.v, where the driver
     has already resolved them): a type name is optionally qualified by an include.
     [underlying_go] transcribes the Go function: the typedef index is taken from the included
     file when the name is qualified, but the recursion on the typedef's target continues in the
